@@ -250,11 +250,11 @@ def is_zero_d_ndarray(x):
 
 def listify(x):
     "recursively convert all members of a sequence to a list"
-    if not isiterable(x): return x
-    if x is iter(x): return listify(list(x))
     try: # e.g. if array(1)
         if x.ndim == 0: return x.flatten()[0]
     except Exception: pass
+    if not isiterable(x): return x
+    if x is iter(x): return listify(list(x))
     return [listify(i) for i in x]
 
 def flatten_array(sequence, maxlev=999, lev=0):
